@@ -353,10 +353,49 @@ impl Check for C16 {
                     drain_blocking();
                     let cnames = check_dir(&mut o, "cache", &sbox, &cdir, &before);
                     o.ev(format!("cache={:?} files={cnames:?}", cres.as_ref().map_err(variant)));
-                    if cres.is_ok() {
-                        o.probe("metadata_cached");
-                        if !any_reserved && cnames.len() != 4 + sc.names.len() {
-                            o.violate("cache-role-files-collide", format!("{} roles but cache holds {cnames:?}", sc.names.len()));
+                    // URLs requested while caching obey the same rule as those of the update cycle
+                    let log2: Vec<_> = transport.log().into_iter().skip(log.len()).collect();
+                    let mut cache_role_rels: Vec<String> = Vec::new();
+                    for l in &log2 {
+                        match l.url.strip_prefix(META_BASE) {
+                            None => o.violate("request-outside-metadata-base", format!("cache requested {}", l.url)),
+                            Some(rest) => {
+                                if rest.is_empty() || rest == "." || rest == ".." || rest.contains('/') || rest.contains('?') || rest.contains('#') || rest.contains('\\') {
+                                    o.violate("request-not-a-single-path-segment", format!("cache requested {}", l.url));
+                                }
+                                let top = rest == "timestamp.json" || rest.ends_with("root.json") || rest.ends_with("snapshot.json") || rest.ends_with("targets.json");
+                                if !top {
+                                    cache_role_rels.push(rest.to_string());
+                                }
+                            }
+                        }
+                    }
+                    if !any_reserved {
+                        let distinct: BTreeSet<&String> = cache_role_rels.iter().collect();
+                        if distinct.len() != cache_role_rels.len() {
+                            o.violate("two-role-names-one-file", format!("role files requested while caching: {cache_role_rels:?} for roles {:?}", sc.names));
+                        }
+                    }
+                    match &cres {
+                        Ok(()) => {
+                            o.probe("metadata_cached");
+                            if !any_reserved && cnames.len() != 4 + sc.names.len() {
+                                o.violate("cache-role-files-collide", format!("{} roles but cache holds {cnames:?}", sc.names.len()));
+                            }
+                            // every role's metadata is in the cache, byte for byte, under some name
+                            if !any_reserved {
+                                let cached: Vec<Vec<u8>> = cnames.iter().filter_map(|n| std::fs::read(cdir.join(n)).ok()).collect();
+                                for (i, d) in role_docs.iter().enumerate() {
+                                    if !cached.iter().any(|c| c == d) {
+                                        o.violate("cache-lacks-role-metadata", format!("the metadata of role {:?} is not among the cached files {cnames:?}", sc.names[i]));
+                                    }
+                                }
+                            }
+                        }
+                        Err(e) => {
+                            if !any_reserved {
+                                o.violate("cache-metadata-failed-for-clean-repository", format!("cache_metadata failed with {} for role names {:?}", variant(e), sc.names));
+                            }
                         }
                     }
                 }
